@@ -212,6 +212,7 @@ func checkC08(w *World, r *Run) {
 	checkC08SQL(w, r, ruleSQL)
 	checkC08Book(w, r, ruleBook)
 
+	checkTxFinalization(w, r)
 	r.NotCovered("the interleavings themselves (two transactions racing on the registry row): the rules show that every deletion is gated on the registry/parts-table state read in the deleting transaction and that every sharer increments the registry with the ref_count > 0 guard, not that the database isolates them; part stores deleting content on their own (cache eviction, erasure-coding repair)")
 }
 
